@@ -19,6 +19,8 @@ CONSTANTS
   QuotedIdents <- MC_QuotedIdents
   StrLits <- MC_StrLits
   TrickyStrs <- MC_TrickyStrs
+  UniIdents <- MC_UniIdents
+  UniStrs <- MC_UniStrs
   MaxDefs = 4
   MaxGroup = 3
   MaxItems = 3
